@@ -67,6 +67,11 @@ fn collapse_ws(s: &str) -> String {
 
 impl Cx {
     fn leaf(&self, n: &SyntaxNode, out: &mut Vec<String>) {
+        if n.kind() == K::Shebang {
+            // a shebang line is comment-like: blanks at its end are layout
+            out.push(format!("Shebang:{}", n.text().trim_end()));
+            return;
+        }
         out.push(format!("{:?}:{}", n.kind(), n.text()));
     }
 
